@@ -1,9 +1,9 @@
 /-
   C04 — refresh tokens rotate: each can be exchanged successfully at most once.
-  The history theorems quantify over histories of *tracked* operations (`Op.tracked`: everything but
-  `devicePoll` and `authorizePar`, whose request ids come from tables the invariant does not track yet).
   Property theorems only.  Statements quantify over every state satisfying the grant invariant
-  (which holds initially and is preserved by every operation), every history and every token.
+  (which holds initially and is preserved by every operation — including the device-code grant and
+  the authorization endpoint with a pushed `request_uri`, whose request ids come from the device /
+  PAR tables the invariant tracks), every history of operations and every token.
 -/
 import Fosite.Proofs.GrantHistory
 namespace Fosite.Props.C04
@@ -16,7 +16,8 @@ def isRefreshSuccess (sig : Nat) : Op × Out → Bool
 
 /-- the invariant the theorems assume holds in the initial state and after every operation -/
 theorem invariant_initially : GInv ({} : MState).ss := init_GInv
-theorem invariant_preserved (s : MState) (op : Op) (ht : op.tracked = true) (h : GInv s.ss) : GInv (step s op).1.ss := step_GInv s op ht h
+theorem invariant_preserved (s : MState) (op : Op) (h : GInv s.ss) : GInv (step s op).1.ss := step_GInv s op h
+theorem invariant_after (ops : List Op) (s : MState) (h : GInv s.ss) : GInv (after s ops).ss := after_GInv ops s h
 
 /-- One step: a refresh that returns tokens was presented an exact (MAC-verified) copy of a refresh
     token whose record was *active*, by the client it was issued to, and leaves that token dead:
@@ -58,7 +59,7 @@ theorem dead_refresh_token_stays_dead (s : MState) (op : Op) (sig : Nat) (hd : R
 
 /-- After a refresh token is dead no operation of any history exchanges it. -/
 theorem dead_refresh_token_never_exchanged (ops : List Op) (s : MState) (sig : Nat)
-    (ht : ∀ op ∈ ops, op.tracked = true) (hinv : GInv s.ss) (hd : RTDead s.ss sig) : ((trace s ops).filter (isRefreshSuccess sig)).length = 0 := by
+    (hinv : GInv s.ss) (hd : RTDead s.ss sig) : ((trace s ops).filter (isRefreshSuccess sig)).length = 0 := by
   induction ops generalizing s with
   | nil => rfl
   | cons op ops ih =>
@@ -76,18 +77,16 @@ theorem dead_refresh_token_never_exchanged (ops : List Op) (s : MState) (sig : N
         | _ => simp [isRefreshSuccess]
       | _ => simp [isRefreshSuccess]
     rw [hno]
-    exact ih _ (fun o ho => ht o (List.mem_cons_of_mem _ ho)) (step_GInv s op (ht op List.mem_cons_self) hinv) (step_RTDead s op sig hd)
+    exact ih _ (step_GInv s op hinv) (step_RTDead s op sig hd)
 
 /-- **C04 (one use each).** In any history, from any state satisfying the invariant, a given
     refresh token is exchanged successfully at most once. -/
-theorem refresh_token_exchanged_at_most_once (ops : List Op) (s : MState) (sig : Nat)
-    (ht : ∀ op ∈ ops, op.tracked = true) (hinv : GInv s.ss) :
+theorem refresh_token_exchanged_at_most_once (ops : List Op) (s : MState) (sig : Nat) (hinv : GInv s.ss) :
     ((trace s ops).filter (isRefreshSuccess sig)).length ≤ 1 := by
   induction ops generalizing s with
   | nil => simp [trace]
   | cons op ops ih =>
-    have hinv' := step_GInv s op (ht op List.mem_cons_self) hinv
-    have ht' : ∀ o ∈ ops, o.tracked = true := fun o ho => ht o (List.mem_cons_of_mem _ ho)
+    have hinv' := step_GInv s op hinv
     simp only [trace, List.filter_cons]
     by_cases hsucc : isRefreshSuccess sig (op, (step s op).2.1) = true
     · rw [if_pos hsucc]
@@ -104,12 +103,35 @@ theorem refresh_token_exchanged_at_most_once (ops : List Op) (s : MState) (sig :
             subst this; exact hd
           | _ => rw [hout] at hsucc; simp [isRefreshSuccess] at hsucc
         | _ => rw [hop] at hsucc; simp [isRefreshSuccess] at hsucc
-      rw [List.length_cons, dead_refresh_token_never_exchanged ops _ sig ht' hinv' hdead]; omega
-    · rw [if_neg hsucc]; exact ih _ ht' hinv'
+      rw [List.length_cons, dead_refresh_token_never_exchanged ops _ sig hinv' hdead]; omega
+    · rw [if_neg hsucc]; exact ih _ hinv'
 
-theorem refresh_token_exchanged_at_most_once_from_init (ops : List Op) (sig : Nat)
-    (ht : ∀ op ∈ ops, op.tracked = true) :
+theorem refresh_token_exchanged_at_most_once_from_init (ops : List Op) (sig : Nat) :
     ((trace {} ops).filter (isRefreshSuccess sig)).length ≤ 1 :=
-  refresh_token_exchanged_at_most_once ops {} sig ht init_GInv
+  refresh_token_exchanged_at_most_once ops {} sig init_GInv
+
+/-! ### non-vacuity: histories through the device-code grant and a pushed `request_uri` in which
+    the refresh token they lead to is exchanged exactly once (the second attempt is refused) -/
+
+def exDeviceHistory : List Op :=
+  [ .setCfg { refreshScopes := [] },
+    .setClient { id := "c", isPublic := true, grants := [deviceGrant, "refresh_token"] },
+    .deviceAuthorize { clientId := "c", credOk := true, formClientId := "c" },
+    .deviceDecide 1 true [] [] "u",
+    .devicePoll { clientId := "c", credOk := true, code := { sig := some 1, exact := true } },
+    .refresh { clientId := "c", credOk := true, token := { sig := some 5, exact := true } },
+    .refresh { clientId := "c", credOk := true, token := { sig := some 5, exact := true } } ]
+
+def exParHistory : List Op :=
+  [ .setCfg { refreshScopes := [] },
+    .setClient { id := "c", isPublic := true, grants := ["refresh_token", "authorization_code"], responseTypes := ["code"] },
+    .parPush { credOk := true, q := { clientId := "c", responseTypes := ["code"] } },
+    .authorizePar { clientId := "c", uri := some 1 },
+    .redeem { clientId := "c", credOk := true, code := { sig := some 2, exact := true } },
+    .refresh { clientId := "c", credOk := true, token := { sig := some 5, exact := true } },
+    .refresh { clientId := "c", credOk := true, token := { sig := some 5, exact := true } } ]
+
+example : ((trace {} exDeviceHistory).filter (isRefreshSuccess 5)).length = 1 := by decide
+example : ((trace {} exParHistory).filter (isRefreshSuccess 5)).length = 1 := by decide
 
 end Fosite.Props.C04
